@@ -738,3 +738,188 @@ def gen_endon_case(rng):
         lines.append("step %d" % rng.choice(STEPS))
     lines += ["step 1000", "step 1000", "thread-result"]
     return lines
+
+
+# ---------------------------------------------------------------------------------------------
+# C09: threads suspended in the MIDDLE OF AN EXPRESSION at the save point (`waitthread` whose result is
+# used: operands on the caller's VM stack while the callee sleeps across the save), results visible
+
+def c09_expr_programs(quick=True):
+    """deterministic programs (machine-comparable) + frame schedules; the callers print `m<base+result>`"""
+    progs = []
+    steps7 = ["step 125"] * 6 + ["step 1000"]
+    for form in range(6):
+        # two calls one after the other, the callees sleep over one / two frame boundaries
+        progs.append(([[("mark", 1), ("wait", 125), ("waitsum", 1, form, 107, 7), ("mark", 2), ("waitsum", 2, form, 504, 4), ("mark", 3)],
+                       [("mark", 10), ("wait", 250), ("mark", 11), ("end", 7)],
+                       [("mark", 20), ("wait", 125), ("mark", 21), ("wait", 125), ("end", 4)]], steps7))
+        # nested: the callee is itself suspended mid-expression on a third thread
+        f2 = (form + 1) % 6
+        progs.append(([[("mark", 1), ("waitsum", 1, form, 307, 7), ("mark", 2)],
+                       [("mark", 10), ("wait", 125), ("waitsum", 2, f2, 242, 42), ("mark", 11), ("wait", 125), ("end", 7)],
+                       [("mark", 20), ("wait", 250), ("mark", 21), ("end", 42)]], ["step 125"] * 5 + ["step 1000"]))
+    for form in ((0, 1, 3) if quick else range(6)):
+        # two callers suspended at the same time beside a ticker; frames of 50 ms so that saves fall everywhere
+        progs.append(([[("mark", 1), ("thread", 1), ("thread", 2), ("thread", 5), ("mark", 2)],
+                       [("mark", 10), ("waitsum", 3, form, 207, 7), ("mark", 11), ("wait", 125), ("mark", 12)],
+                       [("mark", 20), ("wait", 50), ("waitsum", 4, (form + 2) % 6, 904, 4), ("mark", 21)],
+                       [("mark", 30), ("wait", 125), ("mark", 31), ("wait", 125), ("end", 7)],
+                       [("wait", 250), ("mark", 40), ("end", 4)],
+                       [("wait", 125), ("mark", 50), ("wait", 125), ("mark", 51), ("wait", 125), ("mark", 52)]],
+                      ["step 50", "step 75", "step 125", "step 50", "step 75", "step 125", "step 1000"]))
+        # control: the callee ends inside the call (no suspension), and a callee that waits 0
+        progs.append(([[("mark", 1), ("waitsum", 1, form, 107, 7), ("mark", 2), ("wait", 125), ("waitsum", 2, form, 204, 4), ("mark", 3)],
+                       [("mark", 10), ("end", 7)],
+                       [("mark", 20), ("wait", 0), ("mark", 21), ("end", 4)]], ["step 0", "step 125", "step 125", "step 1000"]))
+    return [(p, ["reset", script_line(p), "callv m t0"] + steps) for p, steps in progs]
+
+
+def c09_expr_model_cases(quick=True):
+    """the programs above with `save; load` at EVERY boundary, for the machine-vs-engine comparison"""
+    cases = []
+    for i, (prog, base) in enumerate(c09_expr_programs(quick)):
+        for k in range(3, len(base)):
+            cases.append(("expr%d@%d" % (i, k), base[:k] + ["save", "load"] + base[k:]))
+    return cases
+
+
+def gen_c09_expr_prog(rng):
+    """random: like gen_c09_prog (timers, thread, waitthread, pause, level waittill/notify; no endon: nothing
+    is killed, so every callee's result is the literal it ends with) with `waitthread` mostly in expression
+    position and its result printed"""
+    nl = rng.randint(2, 5)
+    mk = Marks()
+    ends = [rng.choice([4, 7, 42]) for _ in range(nl)]
+    prog = []
+    for i in range(nl):
+        body = [mk.next()]
+        for _ in range(rng.randint(1, 5)):
+            r = rng.random()
+            if r < 0.4:
+                body.append(("wait", rng.choice(DURS + [1000])))
+            elif r < 0.5 and i + 1 < nl:
+                body.append(("thread", rng.randint(i + 1, nl - 1)))
+            elif r < 0.88 and i + 1 < nl:
+                l = rng.randint(i + 1, nl - 1)
+                body.append(("waitsum", l, rng.randrange(6), 100 * rng.randint(1, 9) + ends[l], ends[l]))
+            elif r < 0.9:
+                body.append(("pause",))
+            elif r < 0.95:
+                body.append(("waittill", 50, [rng.randint(1, 2)]))
+            else:
+                body.append(("notify", 50, rng.randint(1, 2)))
+            body.append(mk.next())
+        body.append(("end", ends[i]))
+        prog.append(body)
+    return prog
+
+
+# engine A/B only (free script text): results of suspended calls used as arguments, in string / array /
+# vector expressions, in conditions; level variables printed at the end
+AB_EXPR_SCRIPTS = [
+    # the shape of seeded/C09-ind-6: assignment + arithmetic, level variable
+    """t0:
+level.acc = 0
+thread ticker 0.15
+wait 0.2
+local.r = waitthread slow 7
+println "slow returned " local.r
+println ("sum " + (100 + (waitthread slow 4)))
+level.result = local.r
+println "result " level.result " acc " level.acc
+end
+slow local.x:
+wait 0.25
+level.acc += local.x
+wait 0.1
+end (local.x * 2)
+ticker local.period:
+for (local.i = 1; local.i <= 6; local.i++) {
+  wait local.period
+  println "tick " local.i
+}
+end
+""",
+    # results as arguments of another call, left and right operands both pending in turn
+    """t0:
+local.r = waitthread add (waitthread slow 3) (waitthread slow 5)
+println "r " local.r
+local.s = (waitthread slow 1) + (waitthread slow 2) * (waitthread slow 3)
+println "s " local.s
+level.out = local.r + local.s
+println "level " level.out
+end
+add local.a local.b:
+wait 0.125
+end (local.a + local.b)
+slow local.x:
+wait 0.125
+println "slow " local.x
+wait 0.125
+end (local.x * 2)
+""",
+    # strings, arrays, vectors, a listener reference under the pending slot
+    """t0:
+local.a[1] = "x" + (waitthread wordf "mid") + "y"
+println local.a[1]
+local.a[(waitthread numf 2)] = "two"
+println local.a[2]
+local.v = (1 2 3) + (waitthread vecf)
+println local.v
+local.me = local
+local.same = (local.me == (waitthread selff local))
+println "same " local.same
+local.b[1][(waitthread numf 3)] = (waitthread numf 4)
+println local.b[1][3]
+end
+wordf local.w:
+wait 0.25
+end (local.w + "!")
+numf local.n:
+wait 0.125
+end local.n
+vecf:
+wait 0.125
+end (10 20 30)
+selff local.o:
+wait 0.125
+end local.o
+""",
+    # conditions and loop bounds
+    """t0:
+if ((waitthread numf 2) == 2) {
+  println "yes"
+} else {
+  println "no"
+}
+local.i = 0
+while (local.i < (waitthread numf 2)) {
+  println "loop " local.i
+  local.i++
+}
+local.k = ((waitthread numf 1) && (waitthread numf 5)) + ((waitthread numf 0) || (waitthread numf 6))
+println "k " local.k
+switch (waitthread numf 3) {
+case 3:
+  println "three"
+  break
+default:
+  println "other"
+  break
+}
+end
+numf local.n:
+wait 0.125
+end local.n
+""",
+]
+
+
+def c09_expr_ab_cases(quick=True):
+    """(description, base lines) for the engine-vs-engine run with save;load at every boundary"""
+    res = []
+    for prog, base in c09_expr_programs(quick):
+        res.append((base[1].split("## ", 1)[-1], base))
+    for src in AB_EXPR_SCRIPTS:
+        res.append((src, ["reset", "script m %s" % src.encode().hex(), "callv m t0"] + ["step 50", "step 75"] * 9 + ["step 125"] * 4 + ["step 1000"]))
+    return res
